@@ -49,7 +49,9 @@ CHECKS = {
          'success exit of get / a layer descent of get, put, remove only after a later, valid stable-version check '
          '(R-VAR); the value exit is also validated against a concurrent remove (R-RV); get_lv_of returns only under '
          'two equal stable versions with one permutation snapshot (R-LOOKUP); writers re-validate (and re-look-up) '
-         'under the lock before mutating (R-WUL); structural stores happen under a dirty bit (R-DBM). Necessary '
+         'under the lock before mutating (R-WUL); structural stores happen under a dirty bit (R-DBM); the post-lookup '
+         'deleted/root test uses the validated version (R-PLC); every descent step re-validates (R-DESC); the '
+         'lock-protects-field and link/parent pairing obligations of C08 (R-MUL, R-LINK) are shared. Necessary '
          'conditions of linearizability, not a proof of it.',
          'clang 14 AST/CFG; hardware atomicity of the version word; sufficiency of the comparisons (ABA) undecided',
          'DESIGN.md section 5, C01'),
@@ -65,7 +67,8 @@ CHECKS = {
          'Decides the order of the four boundary loads of scan_border (neighbour pointer and neighbour version before '
          'the final, OK-established check; exactly those values handed over) (R-ORD), that every visit is validated '
          '(R-CHK), that a split sibling is locked and dirty and linked before it is reachable (R-SPL), the return '
-         'conditions of scan_check_retry (R-EQ) and dirty-before-insert (R-BUMP). The interleaving argument itself '
+         'conditions of scan_check_retry (R-EQ), dirty-before-insert (R-BUMP) and that the recorded pair is the '
+         'validated version of the visited border (R-REC, shared with C05). The interleaving argument itself '
          'is not decided.',
          'clang 14 AST/CFG; acquire/release annotations trusted',
          'DESIGN.md section 5, C06'),
@@ -80,7 +83,8 @@ CHECKS = {
          'self-wait rules, reader call-graph rule',
          'Decides lock balance on every exit of every writer function (R-BAL), the conditional contract of lock_parent '
          '(R-LP), the documented acquisition order at every blocking acquire (R-ORDL), no spin on an own lock '
-         '(R-NSW) and lock-free readers (R-RDR). Termination of the optimistic retry loops is not decided.',
+         '(R-NSW), lock-free readers (R-RDR), the CAS-loop discipline of the lock word (R-CASL, R-MX, shared with C17) '
+         'and stores to neighbour / parent links under the guarding lock (R-MUL, shared with C08). Termination of the optimistic retry loops is not decided.',
          'clang 14 AST/CFG; three named unreachable fall-off tails are exempt from balance',
          'DESIGN.md section 5, C09'),
  'C12': ('dirty-set = reported-set typestate over put / insert_lv / border_split; critical-section rule; receiver rule',
@@ -103,7 +107,8 @@ CHECKS = {
          'Decides on every CFG path that each allocation is transferred, retired, returned or freed exactly once '
          '(R-OWN), that a displaced value is retired (R-SWAP), that fin drains every container the GC fills and every '
          'session (R-DRAIN), and that recursive teardown covers every link with an exactly-once hand-over to the GC '
-         '(R-DESTROY). Allocator balance over histories is not decided.',
+         '(R-DESTROY), and that a tree root pointer is nulled only when the loaded root is null or destroyed on that '
+         'path (R-ROOT). Allocator balance over histories is not decided.',
          'clang 14 AST/CFG; objects stored into the tree are released by teardown / GC',
          'DESIGN.md section 5, C11'),
  'C10': ('cursor typestates (range reader with iscan_check_retry, validate-after-read, early-abort, '
